@@ -151,18 +151,30 @@ func fillContainers(containers map[*container.Container][]string) error {
 }
 
 func (s *State) apply(args []string, pc matcher.ParseContext) bool {
+	return s.applyFrom(args, pc, nil)
+}
+
+// applyFrom is apply with the set of states already entered since input was last consumed:
+// going back to one of them without having consumed anything could only repeat the same attempts
+func (s *State) applyFrom(args []string, pc matcher.ParseContext, seen map[*State]bool) bool {
 	if len(args) > 0 {
 		arg := args[0]
 
 		if !pc.RejectOptions && arg == "--" {
 			pc.RejectOptions = true
 			args = args[1:]
+			seen = nil
 		}
 	}
 
 	if s.Terminal && len(args) == 0 {
 		return true
 	}
+
+	if seen == nil {
+		seen = map[*State]bool{}
+	}
+	seen[s] = true
 
 	type match struct {
 		tr  *Transition
@@ -180,11 +192,29 @@ func (s *State) apply(args []string, pc matcher.ParseContext) bool {
 	}
 
 	for _, m := range matches {
-		if ok := m.tr.Next.apply(m.rem, m.pc); ok {
+		nextSeen := seen
+		if m.pc.RejectOptions != pc.RejectOptions || !sameArgs(m.rem, args) {
+			nextSeen = nil
+		} else if seen[m.tr.Next] {
+			continue
+		}
+		if ok := m.tr.Next.applyFrom(m.rem, m.pc, nextSeen); ok {
 			pc.Merge(m.pc)
 			return true
 		}
 	}
 
 	return false
+}
+
+func sameArgs(a, b []string) bool {
+	if len(a) != len(b) {
+		return false
+	}
+	for i := range a {
+		if a[i] != b[i] {
+			return false
+		}
+	}
+	return true
 }
